@@ -71,7 +71,7 @@ Proof.
     + apply in_app_or in H. destruct H as [|[|[]]]; auto. subst. auto.
     + auto.
   - (* ClearBy *)
-    destruct (mem j (sched s) && isnone (inflight s)) eqn:E; [|discriminate].
+    destruct (isnone (inflight s)) eqn:E; [|discriminate].
     inversion H; subst; clear H.
     constructor; simpl; unfold complete; simpl; intros; try discriminate; auto.
   - (* Expire *)
